@@ -21,7 +21,7 @@ import (
 	"verif/mc"
 )
 
-const rule = "complete product: rack/server shapes (1..3 racks x 1..2 servers) x per-server spare volume slots {0,1} x layouts of the 14 shards of EC volume 1 from a family (all on one server, round-robin, contiguous blocks, 10+rest, 7/7, one rack only) x {0,1,2} duplicated shards x an optional second EC volume; every snapshot through ec.balance dry run (EACH_COLLECTION); every printed move replayed on a reference model; final EcNode bookkeeping compared shard by shard with the initial layout; distinct = (shape class, plan length class, outcome)"
+const rule = "complete product: rack/server shapes (1..3 racks x 1..2 servers) x per-server spare volume slots {0,1} x layouts of the 14 shards of EC volume 1 from a family (all on one server, round-robin, contiguous blocks, 10+rest, 7/7, one rack only) x {0,1,2} duplicated shards x an optional second EC volume; plus, on 2 racks / 3 servers, two EC volumes each cut into three contiguous runs at every pair of cut points (nearly-full servers with 0..9 free shard slots); every snapshot through ec.balance dry run (EACH_COLLECTION); every printed move replayed on a reference model; final EcNode bookkeeping compared shard by shard with the initial layout; distinct = (shape class, plan length class, outcome)"
 
 func Main() { mc.Main("C16", "exploration", rule, run) }
 
@@ -511,6 +511,79 @@ func enumerate(b bounds, shard, nShards int, f func(sn *Snapshot, desc string)) 
 	}
 }
 
+// enumerateCuts: 2 racks / 3 servers (s1,s2 in r1, s3 in r2), two EC volumes, each split into
+// three contiguous runs [0,a) on s1, [a,b) on s2, [b,14) on s3 for every a<=b from cuts.  With
+// spare 0 a server's free shard slots are 10*ceil(shards/10)-shards, i.e. every value 0..9 occurs
+// (a partial third EC volume shifts that value): nearly-full servers whose real room (snapshot +
+// planned moves, never the planner's own freeEcSlot after the start) can contradict the plan.
+func enumerateCuts(cuts []int, spareOf []int, shard, nShards int, f func(sn *Snapshot, desc string)) {
+	racks := []string{"r1", "r1", "r2"}
+	ids := []string{"s1", "s2", "s3"}
+	outer := 0
+	split := func(sn *Snapshot, vid uint32, a, b int) {
+		for k := 0; k < totalShards; k++ {
+			srv := 2
+			if k < a {
+				srv = 0
+			} else if k < b {
+				srv = 1
+			}
+			sn.Servers[srv].Ec[vid] |= 1 << uint(k)
+		}
+	}
+	for _, a1 := range cuts {
+		for _, b1 := range cuts {
+			if b1 < a1 {
+				continue
+			}
+			for _, a2 := range cuts {
+				for _, b2 := range cuts {
+					if b2 < a2 {
+						continue
+					}
+					outer++
+					if outer%nShards != shard {
+						continue
+					}
+					// spare slots only on s3 (s1 and s2 stay as tight as their shards allow); a third,
+					// partial EC volume 3 optionally adds 5 (4 on s3) more shards to a server so that its
+					// free shard slots take every small value independently of how volumes 1 and 2 are cut
+					mc.Product([]int{len(spareOf), 2, 2, 2}, func(sp []int) bool {
+						sn := &Snapshot{}
+						for i := range ids {
+							spare := 0
+							if i == 2 {
+								spare = spareOf[sp[0]]
+							}
+							sn.Servers = append(sn.Servers, Server{Rack: racks[i], Id: ids[i], Spare: spare, Ec: map[uint32]uint32{}})
+						}
+						split(sn, 1, a1, b1)
+						split(sn, 2, a2, b2)
+						fill := []uint32{0x1f, 0x1f << 5, 0xf << 10}
+						for i := range ids {
+							if sp[1+i] == 1 {
+								sn.Servers[i].Ec[3] = fill[i]
+							}
+						}
+						minFree := 99
+						for i := range sn.Servers {
+							if fr := sn.Servers[i].slots()*10 - sn.Servers[i].shardCount(); fr < minFree {
+								minFree = fr
+							}
+						}
+						tight := "roomy"
+						if minFree <= 5 {
+							tight = "nearly-full"
+						}
+						f(sn, "cuts|racks=2|"+tight)
+						return true
+					})
+				}
+			}
+		}
+	}
+}
+
 func layoutClass(n string) string {
 	if strings.HasPrefix(n, "all-on-") {
 		return "all-on-one"
@@ -530,7 +603,13 @@ func run(r *mc.Run) {
 		if err := r.ReplayCase(&sn); err != nil {
 			mc.Fatal("replay: %v", err)
 		}
-		one(r, cp, &sn, "replay", map[string]int{})
+		// the planner walks Go maps: re-plan until a violation shows or 400 plans held
+		for i := 0; i < 400; i++ {
+			if c, _, _ := evaluate(cp, &sn); c != "" || i == 399 {
+				one(r, cp, &sn, "replay", map[string]int{})
+				return
+			}
+		}
 		return
 	}
 	b := bounds{
@@ -553,6 +632,22 @@ func run(r *mc.Run) {
 			one(r, cp, sn, desc, seen)
 		})
 	})
+	cuts := []int{0, 5, 7, 8, 10, 14}
+	if r.Thorough() {
+		cuts = []int{0, 1, 2, 3, 4, 5, 6, 7, 8, 9, 10, 11, 12, 13, 14}
+	}
+	r.Parallel("cuts", 16, func(shard, n int) {
+		seen := map[string]int{}
+		var cnt int64
+		enumerateCuts(cuts, []int{0, 1}, shard, n, func(sn *Snapshot, desc string) {
+			if !r.Begin(sn) {
+				return
+			}
+			cnt++
+			one(r, cp, sn, desc, seen)
+		})
+		r.Add("cases:cuts", cnt)
+	})
 }
 
 func one(r *mc.Run, cp *capture, sn *Snapshot, desc string, seen map[string]int) {
@@ -571,12 +666,21 @@ func one(r *mc.Run, cp *capture, sn *Snapshot, desc string, seen map[string]int)
 		return
 	}
 	cc := *sn
-	r.Violate(class, msg, cc, func() bool {
-		for i := 0; i < 400; i++ {
-			if c2, _, _ := evaluate(cp, &cc); c2 == class {
-				return true
-			}
+	// Every observed plan is a real behaviour of the planner, whatever order the runtime picked
+	// for its map walks, so the verdict stands on its own.  Reproduction is attempted and recorded
+	// (a rare order may not come back), but a failure to reproduce is not an infrastructure error.
+	again := -1
+	for i := 1; i <= 400; i++ {
+		if c2, _, _ := evaluate(cp, &cc); c2 == class {
+			again = i
+			break
 		}
-		return false
-	})
+	}
+	if again > 0 {
+		msg += fmt.Sprintf(" | reproduced after %d re-plan(s)", again)
+	} else {
+		msg += " | not reproduced in 400 re-plans (depends on Go map iteration order inside the planner)"
+		r.Add("violations_not_reproduced_in_400_replans", 1)
+	}
+	r.Violate(class, msg, cc, nil)
 }
